@@ -163,7 +163,7 @@ func runC12(c *c12Case) *c12Obs {
 				if pb, err := json.Marshal(built[i-1]); err == nil && len(pb) > 2 {
 					refused := append(append([]byte{}, pb[:len(pb)-1]...), []byte(`,"id":7}`+"\n")...)
 					// the harness's own write: without the deadline the library's last write left on the connection, and complete
-					_ = cl.SetWriteDeadline(time.Time{})
+					_ = cl.SetWriteDeadline(time.Now().Add(30 * time.Second)) // (a receiver that has given up reads nothing any more)
 					ok := true
 					for off := 0; off < len(refused) && ok; {
 						n, err := cl.Write(refused[off:])
